@@ -450,7 +450,7 @@ Definition thread_measure (t : thread) : nat := pc_rank (th_pc t) (length (t_rea
 Definition cl_measure (s : cl_state) : nat := match s with CDone => 0 | _ => 1 end.
 Definition main_measure (m : main_pc) : nat := match m with MWait => 2 | MFinal => 1 | MDone => 0 end.
 Definition measure (c : cfg) : nat :=
-  thread_measure (up c) + thread_measure (down c) + cl_measure (clU c) + cl_measure (clD c) + main_measure (main c).
+  2 * thread_measure (up c) + 2 * thread_measure (down c) + cl_measure (clU c) + cl_measure (clD c) + main_measure (main c).
 
 (* the schedule the driver uses to finish a run: round robin *)
 Fixpoint round_robin (n : nat) : list tid :=
